@@ -5,10 +5,11 @@ Model: `PdfVerif.CIDFont` (hand model of cmapdb.py / pdffont.py / pdfdevice.py, 
 implementation by tools/harness/props/c07.py; literal tables regenerated into `Gen/CIDFont.lean`).
 Spec: `PdfVerif.CIDFontSpec`.  Only property theorems live here (helper lemmas: `Lemmas/CIDFont.lean`).
 -/
-import PdfVerif.Lemmas.CIDFontGlue
+import PdfVerif.Lemmas.CMapLexBytes
 
 namespace PdfVerif.Props.C07
 open PdfVerif PdfVerif.CIDFont PdfVerif.CIDFontSpec PdfVerif.CIDFontLemmas
+open PdfVerif.Lexer (SepItem sepOK renderSep)
 
 /-! ## Segmentation: identity CMaps -/
 
@@ -405,5 +406,63 @@ example : (parseToUnicode [.kw "begincodespacerange", .str [0], .str [0x80], .st
       .kw "endcodespacerange", .str [0x30, 0xFF], .str [0x31, 0x01], .int 7, .kw "endcidrange",
       .int 3, .str [0x00, 0x41], .kw "endcidchar"]).toOption
     = some [(3, [0x41]), (9, [0x3101]), (8, [0x3100]), (7, [0x30FF])] := by decide
+
+/-! ## Round 6: ToUnicode CMaps from the BYTES of the stream -/
+
+/-- From bytes, not tokens: take any program of bfchar / bfrange sections in the domain, write each section's count
+as ANY digit string (`cntOK`; the parser discards it), write the CMap file — header, sections, trailer — object by
+object (hex strings in hexadecimal, integers in decimal, `/Name`s, keywords, arrays of hex strings) with ANY non-empty
+separator `g` of white space and comments after every object; then the tokenizer (`Lexer.specLex`, the model proved
+equal to the buffered `PSBaseParser` for every buffer size in C14), the object grouping of `PSStackParser.nextobject`
+(`groupToks`) and `CMapParser` together yield exactly the specified map. -/
+theorem tounicode_bytes_spec (g : List SepItem) (hg : sepOK g) (hne : g ≠ []) (ps : List CSec)
+    (hc : ps.all (fun p => cntOK p.1) = true) (h : inDomain (ps.map (·.2)) = true) :
+    parseToUnicodeBytes ((progS ps).flatMap (STok.spell (renderSep g))) = some (.ok (specMap (ps.map (·.2)))) := by
+  simp only [inDomain, Bool.and_eq_true] at h
+  unfold parseToUnicodeBytes
+  rw [group_lex_prog g hg hne ps hc]
+  simp only [Option.map_some]
+  rw [parse_renderN ps h.1, putAll_quirkFree _ _ h.2]
+  simp [specMap]
+
+/-- The same without the U+00A0 hypothesis (result as the sequence of `add_cid2unichr` assignments). -/
+theorem tounicode_bytes_assignments (g : List SepItem) (hg : sepOK g) (hne : g ≠ []) (ps : List CSec)
+    (hc : ps.all (fun p => cntOK p.1) = true) (h : (ps.map (·.2)).all secOk = true) :
+    parseToUnicodeBytes ((progS ps).flatMap (STok.spell (renderSep g)))
+      = some (.ok (putAll (specPairs (ps.map (·.2))) [])) := by
+  unfold parseToUnicodeBytes
+  rw [group_lex_prog g hg hne ps hc]
+  simp only [Option.map_some]
+  rw [parse_renderN ps h]
+
+/-- The grouping of `PSStackParser.nextobject` inverts the flattening of objects into tokens: for every sequence of
+strings, integers, names, reals, non-bracket keywords and flat arrays. -/
+theorem stackparser_groups_objects (bts : List BTok) (h : bts.all BTok.plain = true) :
+    groupToks (bts.flatMap BTok.flat) = some (bts.map BTok.toTok) := by
+  have := groupAux_flat bts [] [] h
+  simpa [groupToks, groupAux] using this
+
+/-- non-vacuity of the hypotheses: counts `2`, `007`; separator = a space, a comment, a newline. -/
+def exampleCSecs : List CSec :=
+  [([50], .chars [([0x41], [0x00, 0x41]), ([0x00, 0x02], [0xD8, 0x3D, 0xDE, 0x00])]),
+   ([48, 48, 55], .ranges [⟨[0x00, 0x10], [0x00, 0x12], .inc [0x00, 0xFE]⟩,
+                           ⟨[0x00, 0x20], [0x00, 0x21], .arr [[0x30, 0x42], [0x00, 0x66, 0x00, 0x69]]⟩])]
+
+example : sepOK [.ws 32, .comment [99, 32, 60] 13, .ws 10] ∧ exampleCSecs.all (fun p => cntOK p.1) = true ∧
+    inDomain (exampleCSecs.map (·.2)) = true := by
+  refine ⟨?_, by decide +kernel, by decide +kernel⟩
+  intro i hi
+  simp only [List.mem_cons, List.not_mem_nil, or_false] at hi
+  rcases hi with rfl | rfl | rfl
+  · show Lexer.isGapByte 32 = true; decide
+  · exact ⟨by intro x hx; simp only [List.mem_cons, List.not_mem_nil, or_false] at hx; rcases hx with rfl | rfl | rfl <;> decide +kernel, Or.inr rfl⟩
+  · show Lexer.isGapByte 10 = true; decide
+
+/-- … and the byte-level model computes on a stream in quite another spelling (minimal delimiters, upper-case hex
+with inner white space, a literal string with octal escapes, comments, CR / LF):
+`… 2 beginbfchar <41> <0041> <0002>(\330=\336\000) endbfchar 1 beginbfrange<0010><0012>[<3042><00660069>]endbfrange …`. -/
+example : (parseToUnicodeBytes [47, 67, 73, 68, 73, 110, 105, 116, 32, 47, 80, 114, 111, 99, 83, 101, 116, 32, 102, 105, 110, 100, 114, 101, 115, 111, 117, 114, 99, 101, 32, 98, 101, 103, 105, 110, 32, 49, 50, 32, 100, 105, 99, 116, 32, 98, 101, 103, 105, 110, 32, 98, 101, 103, 105, 110, 99, 109, 97, 112, 32, 47, 67, 77, 97, 112, 78, 97, 109, 101, 47, 65, 100, 111, 98, 101, 45, 73, 100, 101, 110, 116, 105, 116, 121, 45, 85, 67, 83, 32, 100, 101, 102, 10, 49, 32, 98, 101, 103, 105, 110, 99, 111, 100, 101, 115, 112, 97, 99, 101, 114, 97, 110, 103, 101, 60, 48, 48, 48, 48, 62, 60, 70, 70, 32, 70, 70, 62, 101, 110, 100, 99, 111, 100, 101, 115, 112, 97, 99, 101, 114, 97, 110, 103, 101, 32, 37, 32, 116, 119, 111, 13, 50, 32, 98, 101, 103, 105, 110, 98, 102, 99, 104, 97, 114, 32, 60, 52, 49, 62, 32, 60, 48, 48, 52, 49, 62, 32, 60, 48, 48, 48, 50, 62, 40, 92, 51, 51, 48, 61, 92, 51, 51, 54, 92, 48, 48, 48, 41, 32, 101, 110, 100, 98, 102, 99, 104, 97, 114, 10, 49, 32, 98, 101, 103, 105, 110, 98, 102, 114, 97, 110, 103, 101, 60, 48, 48, 49, 48, 62, 60, 48, 48, 49, 50, 62, 91, 60, 51, 48, 52, 50, 62, 60, 48, 48, 54, 54, 48, 48, 54, 57, 62, 93, 101, 110, 100, 98, 102, 114, 97, 110, 103, 101, 32, 101, 110, 100, 99, 109, 97, 112, 32, 101, 110, 100, 32, 101, 110, 100]
+    ).map Except.toOption = some (some [(0x11, [0x66, 0x69]), (0x10, [0x3042]), (2, [0x1F600]), (0x41, [0x41])]) := by
+  decide +kernel
 
 end PdfVerif.Props.C07
